@@ -13,6 +13,8 @@ mod decode;
 mod features;
 mod gate;
 mod gcsuite;
+mod execsuite;
+mod model;
 mod dwarf;
 mod gen;
 mod opsx;
@@ -63,6 +65,7 @@ fn main() {
         "features" => features::main(seed, &tier, only.as_deref()),
         "gate" => gate::main(seed, &tier, only.as_deref()),
         "gc" => gcsuite::main(seed, &tier, only.as_deref()),
+        "exec" => execsuite::main(seed, &tier, only.as_deref()),
         "gate-deep" => gate::deep(args[2].parse().unwrap()),
         "opsxtest" => {
             let u = opsx::universe(1);
